@@ -16,7 +16,8 @@ BIGHDR = [16000, 20000, 22000, 26000, 40000, 70000]
 
 
 class Walk:
-    def __init__(self, rng, server, profile, wild):
+    def __init__(self, rng, server, profile, wild, run=False):
+        self.run_mode = run     # T2 component s_loopyrun: no tick/unk ops, header fields restricted to `:status: 200`
         self.r = rng
         self.server = server
         self.p = profile
@@ -29,6 +30,8 @@ class Walk:
 
     def fields(self, big_ok=True):
         r = self.r
+        if self.run_mode:
+            return ",".join(["0.0"] * r.choice([0, 1, 1, 2, 3])) or "-"
         n = r.choice([0, 1, 2, 2, 3, 5])
         fs = []
         if self.server and r.random() < 0.7:
@@ -99,6 +102,8 @@ class Walk:
         self.ops.append("data %d %d %d 0 %d" % (i, h, d, nch))
 
     def ticks(self, n=None):
+        if self.run_mode:
+            return
         n = self.r.choice([1, 1, 2, 3, 5, 8]) if n is None else n
         self.ops += ["tick"] * n
 
@@ -125,7 +130,7 @@ class Walk:
             if x < 0.75:
                 v = r.choice(IWS) if r.random() < 0.5 else r.randrange(0, self.p.get("iwsmax", 70000))
                 ents.append("4=%d" % v)
-            elif x < 0.9:
+            elif x < 0.9 and not self.run_mode:
                 ents.append("1=%d" % r.choice([0, 100, 4096, 65536]))
             else:
                 ents.append("%d=%d" % (r.choice([2, 3, 5, 6]), r.randrange(0, 100000)))
@@ -171,7 +176,7 @@ class Walk:
             self.ops.append("ga %d %d %d %d %d" % (r.choice([0, 1]), r.choice([0, 2]), r.choice([0, 1]), r.choice([0, 0, 1]),
                                                       1 if r.random() < 0.05 else 0))
         elif self.wild and len(self.ops) > 0.7 * self.n:
-            self.ops.append(r.choice(["close", "unk", "ea %d 1 -" % self.next_id]))
+            self.ops.append(r.choice(["close", "close" if self.run_mode else "unk", "ea %d 1 -" % self.next_id]))
 
     def run(self, n):
         r = self.r
@@ -181,7 +186,9 @@ class Walk:
         weights = [w[k] for k in kinds]
         for _ in range(r.randrange(1, self.p.get("streams0", 3) + 1)):
             self.new_stream()
-        while len(self.ops) < n:
+        guard = 0
+        while len(self.ops) < n and guard < 50 * n:
+            guard += 1
             k = r.choices(kinds, weights)[0]
             if k == "new":
                 if len(self.live) < self.p.get("maxlive", 6):
@@ -297,3 +304,26 @@ def nontrivial(case, impl_lines):
                 if len(f) > 1 and f[1] == "2":
                     waited = True
     return data and waited
+
+
+def gen_run_cases(rng, tier, component="s_loopyrun"):
+    """Cases for the T2 component: the real loopyWriter.run() goroutine consumes the items (no tick ops)."""
+    n_cases = {"quick": 120, "thorough": 3000, "search": 1500}[tier]
+    fixed = [
+        ("run-basic", ["side s", "reg 1", "reg 3", "sh 1 0 0.0 0 0", "data 1 5 70000 0 3", "data 3 5 100 0 1", "wu 0 100000", "wu 1 100000",
+                       "sh 1 1 0.0,0.0 1 0", "ofc", "data 3 5 40000 0 2", "set 4=10", "wu 3 5", "set 4=100000", "sh 3 1 - 0 0"]),
+        ("run-client", ["side c", "ch 1 0.0 0", "ch 3 - 0", "data 1 5 65530 0 3", "data 3 5 10 0 1", "wu 0 1", "wu 0 14", "data 1 0 0 1 0",
+                        "set 4=0", "data 3 5 5 0 1", "wu 3 3", "set 4=2", "set 4=1,4=70000", "iga", "ch 5 - 0", "cl 1 0 0", "cl 3 1 8"]),
+        ("run-many", ["side s", "wu 0 1000000"] + ["reg %d" % i for i in (1, 3, 5, 7)] + ["set 4=7"] +
+         ["data %d 5 40 0 2" % i for i in (1, 3, 5, 7)] + ["wu 3 100", "set 4=9", "set 4=1000", "sh 5 1 0.0 1 0", "cl 7 1 8", "set 4=0,4=5"]),
+    ]
+    for tag, ops in fixed:
+        yield Case(component, ops, "fixed-" + tag)
+    names = [n for n in PROFILES if n != "big"]
+    for k in range(n_cases):
+        prof = names[k % len(names)]
+        server = rng.random() < 0.55
+        wild = rng.random() < 0.3
+        n = rng.choice([15, 30, 60])
+        ops = Walk(rng, server, PROFILES[prof], wild, run=True).run(n)
+        yield Case(component, ops, "run-%s-%s-%s-%d" % (prof, "s" if server else "c", "wild" if wild else "disc", k))
